@@ -266,6 +266,11 @@ func (s *SoftwrapScanner) Scan() bool {
 			s.rest = []vaxis.Cell{}
 			// Append characters to token until we reach the end
 			for _, char := range word {
+				// A grapheme which doesn't fit on the partly filled line
+				// ends it: a wide grapheme must not overflow the width
+				if len(s.token) > 0 && w+uint16(char.Width) > s.width {
+					w = s.width
+				}
 				if w >= s.width {
 					// Append the rest to rest
 					s.rest = append(s.rest, char)
